@@ -178,7 +178,13 @@ class CacheFactory(object):
                 self.cull()
             else:
                 self.cullCount = self.cullCount + 1
-            self.cache[id] = obj
+            # expireAll() iterates over self.cache and then replaces it,
+            # both under the lock: write under the lock as well
+            self.lock.acquire()
+            try:
+                self.cache[id] = obj
+            finally:
+                self.lock.release()
         else:
             self.expiredCache[id] = ref(obj)
 
